@@ -10,13 +10,14 @@ set_option linter.unusedSimpArgs false
 def NPc.preIO : NPc → Bool
   | .unborn | .waitPrev | .takeOver | .tkRel => true
   | .loopChk | .wBody | .wRel | .wFailRel | .rChk | .rRead | .call _ | .callRel _ _ | .exit | .exc
-  | .hRun | .hChk | .epilogue | .epRel | .fin | .dead => false
+  | .hRun | .hChk | .hRel | .epilogue | .epRel | .fin | .dead => false
 
 /-- After the `finally` block. -/
 def NPc.past : NPc → Bool
   | .fin | .dead => true
   | .unborn | .waitPrev | .takeOver | .tkRel | .loopChk | .wBody | .wRel | .wFailRel | .rChk
-  | .rRead | .call _ | .callRel _ _ | .exit | .exc | .hRun | .hChk | .epilogue | .epRel => false
+  | .rRead | .call _ | .callRel _ _ | .exit | .exc | .hRun | .hChk | .hRel | .epilogue
+  | .epRel => false
 
 theorem pc_partition (pc : NPc) : pc.preIO = true ∨ pc.ioPhase = true ∨ pc.past = true := by
   cases pc
